@@ -60,6 +60,52 @@ func (r *RNG) ThresholdInt64() (int64, int) {
 	return 1, 0
 }
 
+// ThresholdExact returns an internal threshold itself (those that are valid
+// coefficients), or its neighbour.
+func (r *RNG) ThresholdExact() *big.Int {
+	for try := 0; try < 60; try++ {
+		t := new(big.Int).Set(thresholds[r.Intn(len(thresholds))])
+		t.Add(t, big.NewInt(int64(r.Pick(0, 0, 0, 1, -1))))
+		if t.Sign() > 0 && t.Cmp(ref.Cmax) <= 0 {
+			return t
+		}
+	}
+	return big.NewInt(1)
+}
+
+// ThresholdFull returns a full-width coefficient (10^33 .. Cmax) next to an
+// internal threshold scaled by a power of ten: T*10^j or floor(T/10^j), plus a
+// small or sub-word offset.
+func (r *RNG) ThresholdFull() *big.Int {
+	lo := ref.Pow10(33)
+	for try := 0; try < 60; try++ {
+		t := new(big.Int).Set(thresholds[r.Intn(len(thresholds))])
+		for t.Cmp(lo) < 0 {
+			t.Mul(t, ref.Ten)
+		}
+		for t.Cmp(ref.Cmax) > 0 {
+			t.Quo(t, ref.Ten)
+		}
+		// a 34-digit value may also have a 35-digit scaling that fits
+		if t10 := new(big.Int).Mul(t, ref.Ten); t10.Cmp(ref.Cmax) <= 0 && r.Bool() {
+			t = t10
+		}
+		switch r.Intn(4) {
+		case 0:
+		case 1:
+			t.Add(t, big.NewInt(int64(r.Range(-3, 3))))
+		case 2:
+			t.Add(t, new(big.Int).SetUint64(r.U64()>>uint(r.Intn(64))))
+		default:
+			t.Sub(t, new(big.Int).SetUint64(r.U64()>>uint(r.Intn(64))))
+		}
+		if t.Cmp(lo) >= 0 && t.Cmp(ref.Cmax) <= 0 {
+			return t
+		}
+	}
+	return new(big.Int).Set(lo)
+}
+
 // ThresholdCoef returns floor(T/10^j)+delta for an internal threshold T.
 func (r *RNG) ThresholdCoef() *big.Int {
 	for try := 0; try < 40; try++ {
